@@ -613,6 +613,161 @@ pub fn gen_history(rng: &mut StdRng, g: &GenCfg) -> Vec<Op> {
     ops
 }
 
+/// Class of a journal operation in terms of the program counter labels of spec/HcStore.tla.
+fn jclass(op: &JOp, hdr_seen: &mut u32, trunc_seen: &mut u32) -> String {
+    match (op.store, &op.kind) {
+        (1, JKind::Write { .. }) => "a_data".into(),
+        (1, JKind::Del { .. }) => "c_del".into(),
+        (2, _) => "f_pages".into(),
+        (0, _) => "f_nodes".into(),
+        (3, JKind::Write { off, .. }) if *off >= 8192 => "entry".into(),
+        (3, JKind::Write { .. }) => {
+            *hdr_seen += 1;
+            if *hdr_seen == 1 { "f_hdr".into() } else { "f_hdr2".into() }
+        }
+        (3, JKind::Trunc { .. }) => {
+            *trunc_seen += 1;
+            if *trunc_seen == 1 { "f_trunc".into() } else { "f_trunc2".into() }
+        }
+        _ => "other".into(),
+    }
+}
+
+/// Number of journal operations that precede the first operation of class `pc`.
+fn prefix_for_pc(jops: &[JOp], pc: &str) -> usize {
+    let (mut h, mut t) = (0, 0);
+    let want = match pc {
+        "a_entry" | "c_entry" => "entry",
+        x => x,
+    };
+    for (k, o) in jops.iter().enumerate() {
+        if jclass(o, &mut h, &mut t) == want {
+            return k;
+        }
+    }
+    jops.len()
+}
+
+impl Driver {
+    /// Replay one behaviour exported by TLC from spec/HcStore.tla (DESIGN 3.4): the main line
+    /// follows the behaviour including its crashes; every call additionally gets the full
+    /// fault enumeration as side branches.
+    pub fn behaviour(&mut self, hist: &Value, fc: &FaultCfg, gen: Value) {
+        self.rec.emit(json!({"e":"reset","gen":gen}));
+        self.rec.count("histories", 1);
+        let mut ev = json!({"e":"create","c":"w","key":"k1","writable":true});
+        let (mut core, res) = Core::create("w", VDisk::new(), test_key_pair());
+        if !matches!(res, OpenResult::Ok) {
+            return;
+        }
+        ev["view"] = core.view();
+        self.rec.emit(ev);
+        let mut lin = Lineage { start: Start::Create, ops: vec![] };
+        let steps = hist.as_array().unwrap();
+        let mut salt: u8 = 0;
+        let mut i = 0;
+        while i < steps.len() {
+            let st = steps[i].as_array().unwrap();
+            let name = st[0].as_str().unwrap();
+            let op = match name {
+                "append" => {
+                    let n = st[1].as_u64().unwrap();
+                    Some(Op::Batch((0..n).map(|k| { salt = salt.wrapping_add(1); vec![salt, k as u8] }).collect()))
+                }
+                "clear" => Some(Op::Clear(st[1].as_u64().unwrap(), st[2].as_u64().unwrap())),
+                "mro" => Some(Op::Mro),
+                "close" => None,
+                "open" => {
+                    // a reopen after close (after a crash the crashopen event has already opened)
+                    if i > 0 && steps[i - 1][0] == "close" { Some(Op::Reopen) } else { None }
+                }
+                _ => None,
+            };
+            let next = steps.get(i + 1).map(|s| s[0].as_str().unwrap().to_string());
+            if let Some(op) = op {
+                if matches!(next.as_deref(), Some("crash") | Some("torn")) {
+                    let pc = steps[i + 1][1].as_str().unwrap().to_string();
+                    let torn = next.as_deref() == Some("torn");
+                    let opj = op_json(&op);
+                    let pre = core.disk.images();
+                    let j0 = core.disk.journal_len();
+                    exec(&mut core, &op);
+                    let jops = core.disk.journal_from(j0);
+                    let k = prefix_for_pc(&jops, &pc);
+                    let mut img = pre;
+                    for o in &jops[..k] {
+                        apply(&mut img, o);
+                    }
+                    let mut cut: i64 = -1;
+                    if torn && k < jops.len() {
+                        if let JKind::Write { data, .. } = &jops[k].kind {
+                            cut = (data.len() / 2) as i64;
+                            apply_torn(&mut img, &jops[k], cut as usize);
+                        }
+                    }
+                    let mut ev = json!({"e":"crashopen","c":"w","op":opj,"ks":[k],"m":jops.len(),"cut":cut,"pc":pc});
+                    let (c2, res) = Core::open("w", VDisk::from_images(img.clone()));
+                    core = c2;
+                    ev["open"] = open_json(&res);
+                    if let OpenResult::Ok = res {
+                        ev["view"] = core.view();
+                    }
+                    self.rec.count("crash_points", 1);
+                    self.rec.emit(ev);
+                    if !matches!(res, OpenResult::Ok) {
+                        return;
+                    }
+                    lin = Lineage { start: Start::Images(img), ops: vec![] };
+                    i += 2;
+                    continue;
+                }
+                self.run_ops(&mut core, lin.clone(), &[op.clone()], fc, fc.depth);
+                lin.ops.push(op);
+            }
+            i += 1;
+        }
+    }
+}
+
+pub fn run_replay(args: &[String]) {
+    let mut input = String::new();
+    let mut out = "trace.ndjson".to_string();
+    let mut faults = "crash".to_string();
+    let mut only: Option<usize> = None;
+    let mut i = 0;
+    while i < args.len() {
+        let v = args.get(i + 1).cloned().unwrap_or_default();
+        match args[i].as_str() {
+            "--in" => input = v,
+            "--out" => out = v,
+            "--faults" => faults = v,
+            "--only" => only = Some(v.parse().unwrap()),
+            x => panic!("unknown argument {x}"),
+        }
+        i += 2;
+    }
+    let fc = FaultCfg {
+        crash: faults.contains("crash"),
+        torn: faults.contains("torn"),
+        ioerr: false,
+        depth: 1,
+        cont: true,
+        max_points: 0,
+    };
+    let rec = Rec::new(&out, 20);
+    let mut d = Driver { rec: rec.clone(), rng: StdRng::seed_from_u64(7), suffix_salt: 7 };
+    let text = std::fs::read_to_string(&input).unwrap();
+    for (n, line) in text.lines().enumerate() {
+        if line.trim().is_empty() || (only.is_some() && only != Some(n)) {
+            continue;
+        }
+        let hist: Value = serde_json::from_str(line).unwrap();
+        let gen = json!({"drv":"abs","args":format!("replay --in {input} --faults {faults} --only {n}")});
+        d.behaviour(&hist, &fc, gen);
+    }
+    rec.finish();
+}
+
 pub fn profile(name: &str, ops: usize) -> GenCfg {
     match name {
         // short histories over a small alphabet, for exhaustive fault enumeration
